@@ -2,7 +2,7 @@
 
 from __future__ import annotations
 
-from ..core import Check
+from ..core import Check, Finding
 from .opsprop import fill
 
 EXPLANATION = (
@@ -28,6 +28,19 @@ def run(tier: str) -> Check:
         "consumption by the trivia rules themselves is covered by the operator induction, not separately",
     ]
     repo, _ = fill(check, tier, floors={"trivia_paths": 30, "rule_paths": 200, "trivia_skeleton_variants": 5, "skeleton_paths": 100})
+    from ..triviasem import check_trivia
+
+    construct = "src/pest/state.py::ParserState.parse_trivia"
+    n, bad = check_trivia(repo, construct)
+    check.count("trivia_model_scenarios", n)
+    check.oblige("TRIVIA", construct, f"on all {n} scripted scenarios the rules are consulted on every call, in pest's order, suppressed, rewound and without junk pairs" if not bad else f"{len(bad)} findings on {n} scenarios (per category below)", True, sample=True)
+    cats: dict[str, list[str]] = {}
+    for cat, msg in bad:
+        cats.setdefault(cat, []).append(msg)
+    for cat, msgs in sorted(cats.items()):
+        sig = f"parse_trivia: {cat}"
+        check.oblige("TRIVIA", construct, sig, False, sample=True, finding=Finding("TRIVIA", construct, sig, f"{sig}: e.g. {msgs[0]} ({len(msgs)} of {n} scenarios)", {"witness": msgs[0]}))
+    check.floor("trivia_model_scenarios", 100)
     from .c05 import state_fields
 
     state_fields(check, repo)  # whether trivia is matched at a position must not depend on abandoned attempts
